@@ -4,8 +4,9 @@ import subjects, common
 SPEC = dict(modules=["MemVerif.Props.C16"], gen_cfgs=("rwdi",),
             assumptions=["intrusive node/array lists have no foreign-pointer check (none is claimed by the property); their double-free check exists "
                          "only with FOONATHAN_MEMORY_DEBUG_DOUBLE_DEALLOC_CHECK (dbg, dbgna)",
-                         "completeness of the small list's chunk search for valid pointers (a valid release finds its chunk) is validated by the "
-                         "correspondence of every valid release, not proved yet; soundness, termination and all three checks are proved",
+                         "small list: soundness, termination AND completeness of the chunk search are proved (ring sorted by address with disjoint "
+                         "extents, cursors anywhere); the ring invariant is proved to be kept by releases; that `insert` keeps it is validated by "
+                         "the state dumps (sampling)",
                          "virtual_block_allocator is modelled by the static source model (same check on cur_)"])
 
 LIFO = ["lifo-static", "lifo-virtual", "lifo-fixed"]
